@@ -21,7 +21,7 @@ def build(program):
       ('in', key) read input (qualified or local) ; ('v', key) read line ; ('ni_if', key) NI if input truthy ;
       ('stop_if', key) return 0 if input truthy (conditional read: later steps skipped)
     value = sum of what was read."""
-    from habutax.inputs import IntegerInput
+    from habutax.inputs import IntegerInput, StringInput
     from habutax.fields import IntegerField
     from habutax.form import Form
     classes = []
@@ -40,7 +40,8 @@ def build(program):
             for kind, key in spec:
                 if kind == 'in':
                     cur.append(('i', key))
-                    total += i[key]
+                    x = i[key]
+                    total += len(x) if isinstance(x, str) else x
                 elif kind == 'v':
                     cur.append(('v', key))
                     total += v[key]
@@ -65,7 +66,7 @@ def build(program):
             inst = kw.get('instance')
             full = cname if inst is None else f'{cname}:{inst}'
             fd = program[full]
-            ins = [IntegerInput(n) for n in fd['inputs']]
+            ins = [(StringInput if n.startswith('s') else IntegerInput)(n) for n in fd['inputs']]
             req = [IntegerField(n, mk(full, n, fd['lines'][n])) for n in fd['lines'] if n in fd['required']]
             opt = [IntegerField(n, mk(full, n, fd['lines'][n])) for n in fd['lines'] if n not in fd['required']]
             Form.__init__(self, type(self), ins, req, opt, **kw)
@@ -79,7 +80,7 @@ def qual(form, key):
     return key if '.' in key else f'{form}.{key}'
 
 
-def run(program, requested, provided, answers, refuse_after=None, budget_s=5, max_evals=3000):
+def run(program, requested, provided, answers, refuse_after=None, budget_s=5, max_evals=3000, raise_after=None):
     """Run the real solver; returns a dict of observations."""
     from habutax.inputs import InputStore
     from habutax.solver import Solver
@@ -92,12 +93,16 @@ def run(program, requested, provided, answers, refuse_after=None, budget_s=5, ma
         cfg.set(sec, base, str(v))
     store = InputStore(cfg)
     asked = []
+    given = []
 
     def prompt(missing, needed_by):
         asked.append((missing.name(), [f.name() for f in needed_by]))
+        if raise_after is not None and len(asked) > raise_after:
+            raise EOFError('input ended')
         if refuse_after is not None and len(asked) > refuse_after:
             return (None, False)
         if missing.name() in answers:
+            given.append(missing.name())
             return (str(answers[missing.name()]), True)
         return (None, False)
     s = Solver(store, classes, prompt=prompt if answers is not None else None)
@@ -106,7 +111,7 @@ def run(program, requested, provided, answers, refuse_after=None, budget_s=5, ma
         raise Budget()
     old = signal.signal(signal.SIGALRM, alarm)
     signal.alarm(budget_s)
-    obs = {'program': program, 'requested': requested, 'provided': provided, 'answers': answers, 'refuse_after': refuse_after}
+    obs = {'program': program, 'requested': requested, 'provided': provided, 'answers': answers, 'refuse_after': refuse_after, 'raise_after': raise_after, 'given': given}
     try:
         try:
             obs['result'] = s.solve(list(requested))
@@ -279,6 +284,21 @@ def c13(o):
     return None
 
 
+@check('C20')
+def c20(o):
+    """Whatever ends the solve (completion, refusal, an exception out of the prompt or a line), the configuration object that
+    the write-back serialises holds every value it held before and every answer given before the interruption."""
+    if 'config' not in o:
+        return None
+    for k, v in o['provided'].items():
+        if o['config'].get(k) != str(v):
+            return f'value {k}={v} held before the run is {o["config"].get(k)!r} afterwards'
+    for k in o['given']:
+        if o['config'].get(k) != str(o['answers'][k]):
+            return f'answer {k}={o["answers"][k]} given at a prompt is {o["config"].get(k)!r} in the input store after the run (ended by {o.get("raised") or o.get("result")})'
+    return None
+
+
 def fixed_programs():
     P = []
     P.append({'a': {'inputs': ['x', 'g'], 'lines': {'l1': [('in', 'x')], 'l2': [('v', 'l1'), ('ni_if', 'g')], 'l3': [('v', 'b.m')]}, 'required': ['l1', 'l2', 'l3']},
@@ -346,6 +366,9 @@ def scenarios(seed=0, n_random=150):
             yield prog, requested, half, {k: v for k, v in full.items() if k not in half}, None
             yield prog, requested, half, full, 1
             yield prog, requested, half, None, None
+            for k in (1, 2, 3):
+                yield prog, requested, {}, full, ('raise', k)
+                yield prog, requested, half, full, ('raise', k)
 
 
 def search(prop, seed=0, n_random=150):
@@ -355,7 +378,10 @@ def search(prop, seed=0, n_random=150):
     for prog, requested, provided, answers, refuse in scenarios(seed, n_random):
         n += 1
         try:
-            o = run(prog, requested, provided, answers, refuse)
+            if isinstance(refuse, tuple):
+                o = run(prog, requested, provided, answers, None, raise_after=refuse[1])
+            else:
+                o = run(prog, requested, provided, answers, refuse)
         except Exception as ex:
             continue
         msg = chk(o)
